@@ -1,2 +1,54 @@
+(* C17 - The remote client delivers tx notifications in message-id order exactly once.
+   `run` (model/Client.v) is the model of RemoteClient.handleMessage / addHandlerMessage /
+   processHandler / Ready that the correspondence check executes against the real client;
+   `c17_monitor` (model/ClientSpec.v) is the executable statement of the property over the server's
+   messages, the handler dequeues and the observations (reported next id, handler queue length,
+   what the handlers receive). *)
 From V.lib Require Import Base.
 From V.model Require Import Client ClientSpec.
+From V.proofs Require Import Client_Proofs.
+
+(* On EVERY history (any server stream with expected, duplicated, skipped, old, out-of-order ids, any
+   placement of handler dequeues, reconnects, ready declarations, any handler-queue capacity, with
+   the queue full for longer than the message time-out whenever it is full) the monitor never objects:
+     701 a tx / update whose id is not the expected one was queued for the handlers
+     702 the reported next message id is not (last queued id + 1) / the value declared ready
+     703 handlers receive something else than the oldest queued message (order, loss, duplication)
+     704 a tx / update with the expected id, on an accepted connection with room in the queue, was not queued
+     705 the handler queue changed in a way no single message explains
+     706 data was queued for the handlers on a connection that has not been accepted *)
+Theorem C17_monitor_silent : forall (full : bool) (qcap : Z) (ops : list op),
+  c17_monitor qcap ops (run full qcap ops) = None.
+Proof. exact c17_monitor_silent. Qed.
+Print Assumptions C17_monitor_silent.
+
+(* a message whose id is not the next expected one changes nothing (it is not delivered) *)
+Theorem C17_gate : forall s id k, id <> c_next s ->
+  fst (step s (OMsg (MTx id k))) = s /\ fst (step s (OMsg (MUpdate id k))) = s.
+Proof. exact gate_holds. Qed.
+Print Assumptions C17_gate.
+
+(* If the application always declares ready with the reported next id (also across reconnects), then
+   whatever the server sends and wherever the connection drops, the ids of the notifications the
+   handlers have received so far followed by the ones still queued for them are exactly
+   1, 2, ..., next-1 : nothing missed, nothing repeated, and next = last id + 1. *)
+Theorem C17_resume_exact : forall (full : bool) (qcap : Z) (ops : list op),
+  all_ready_exact (cl_init full qcap) ops ->
+  let s := final (cl_init full qcap) ops in
+  is_run 1 (c_next s) (delivered_from (cl_init full qcap) ops ++ qids (c_queue s)).
+Proof. exact c17_resume_exact. Qed.
+Print Assumptions C17_resume_exact.
+
+(* Non-vacuity: a stream with a duplicate, a gap, a full queue, a reconnect resuming exactly. *)
+Example C17_example_ops : list op :=
+  [OSession; OAccept (AMsg (KDerived 7 1) 0 0 0 (Sig (KDerived 7 1) (AContent (KDerived 7 1) 0 0 0 1))); OReady 0;
+   OMsg (MTx 1 1); OMsg (MTx 1 1); OMsg (MUpdate 3 1); OMsg (MUpdate 2 1); OMsg (MTx 3 2); ODeq; ODeq; ODeq;
+   OMsg (MTx 3 2); OSession;
+   OAccept (AMsg (KDerived 7 2) 0 0 0 (Sig (KDerived 7 2) (AContent (KDerived 7 2) 0 0 0 2))); OReady 4;
+   OMsg (MTx 3 2); OMsg (MTx 4 3); ODeq; ODeq; ODeq; ODeq].
+Example C17_example :
+  all_ready_exact (cl_init true 3) C17_example_ops /\
+  delivered_from (cl_init true 3) C17_example_ops = [1; 2; 3; 4] /\
+  c_next (final (cl_init true 3) C17_example_ops) = 5 /\
+  c17_monitor 3 C17_example_ops (run true 3 C17_example_ops) = None.
+Proof. vm_compute. repeat split; intros; reflexivity. Qed.
